@@ -214,6 +214,11 @@ Definition post_closes (post : str) : bool :=
   match post with c :: _ => negb (c =? 34) | [] => true end &&
   match lex_go true Nrm (post ++ q3) with Some (_, []) => true | _ => false end.
 
+(* raw text on a line of its own between a line QQQ and a line QQQ (overloaded-method docstring) *)
+Definition site_block_line (t : str) : str := site_block_doc [10] [10] t.
+(* client_visitor: first docstring line  {title} (version {version})  — version text is passed in *)
+Definition site_client_title (version t : str) : str := site_block_doc [10] (32 :: 40 :: [118;101;114;115;105;111;110;32] ++ version ++ [41; 10]) t.
+
 (* DocumentationWriter.render_docstring: text goes through textwrap (stdlib, external).  Its relevant
    law, checked against the real output on every run: only WHITE SPACE is edited — every other
    character of t appears in the output in order, white space of t may be dropped / replaced by
@@ -224,11 +229,12 @@ Definition doc_ws (c : N) : bool :=   (* textwrap's whitespace + the extra chara
   || (c =? 28) || (c =? 29) || (c =? 30) || (c =? 133) || (c =? 8232) || (c =? 8233).
 Fixpoint drop_ws (t : str) : str :=
   match t with c :: r => if doc_ws c then drop_ws r else t | [] => [] end.
+Definition out_ws (c : N) : bool := (c =? 9) || (c =? 10) || (c =? 32).   (* what is left after splitlines + join *)
 Fixpoint layoutb (t o : str) {struct o} : bool :=
   match o with
   | [] => match drop_ws t with [] => true | _ => false end
   | c :: o' =>
-      if doc_ws c then layoutb (drop_ws t) o'
+      if out_ws c then layoutb (drop_ws t) o'
       else match t with
            | c' :: t' => (c =? c') && layoutb t' o'
            | [] => false
@@ -270,8 +276,16 @@ Definition safe_default (t : str) : bool := no_chars (fun c => 65536 <=? c) t.
 (* raw docstring text: quote, backslash, NUL/surrogates *)
 Definition safe_doc_raw (t : str) : bool := no_chars (fun c => (c =? 34) || (c =? 92) || bad_raw c) t.
 (* alias docstring (escapes \ and QQQ): harmful = a quote as LAST character, NUL/surrogates *)
-Definition safe_alias_doc (t : str) : bool :=
-  no_chars bad_raw t && match rev t with c :: _ => negb (c =? 34) | [] => true end.
+Fixpoint last_nq (t : str) : bool :=
+  match t with [] => true | c :: r => match r with [] => negb (c =? 34) | _ => last_nq r end end.
+Definition safe_alias_doc (t : str) : bool := no_chars bad_raw t && last_nq t.
+(* fixed template text of a docstring: no backslash, no NUL, every quote is followed by a non-quote character *)
+Fixpoint isoq (s : str) : bool :=
+  match s with
+  | [] => true
+  | c :: r => (if c =? 34 then match r with d :: _ => negb (d =? 34) | [] => false end
+               else negb ((c =? 92) || bad_raw c)) && isoq r
+  end.
 (* comment: CR, NUL/surrogates (LF is replaced) *)
 Definition safe_field_comment (t : str) : bool := no_chars (fun c => (c =? 13) || bad_raw c) t.
 
